@@ -185,6 +185,39 @@ func derivations(thorough bool, f func(name string, ss []string)) {
 			}
 		}
 	}
+	// DC: a compound command, with each trailing redirection, as the LAST command of a list hole with no separator
+	// before the enclosing construct's next reserved word ("if a; then { a; } >f fi"): reserved words are
+	// recognised directly after a compound command's closing token and after its redirections
+	for _, t := range compoundTemplates {
+		nl := countHoles(t, "@L")
+		for h := 0; h < nl; h++ {
+			for _, in := range inner {
+				for _, pre := range [][]string{nil, {"a", ";"}, {"a", "|"}} {
+					lists := make([][]string, nl)
+					for q := range lists {
+						lists[q] = []string{"a"}
+					}
+					lists[h] = append(append(append([]string{}, pre...), in...), "@NOSEP")
+					filled := fill(t, lists, defW)
+					var out []string
+					dropped := false
+					for i := 0; i < len(filled); i++ {
+						if filled[i] == "@NOSEP" {
+							if i+1 < len(filled) && filled[i+1] == ";" {
+								i++
+								dropped = true
+							}
+							continue
+						}
+						out = append(out, filled[i])
+					}
+					if dropped {
+						f("DC", out)
+					}
+				}
+			}
+		}
+	}
 	// compound with redirection at top level, in lists
 	for _, in := range inner {
 		for _, lf := range listForms(in, in) {
